@@ -137,9 +137,9 @@ def run(ctx):
         ctx.ob("C02.P.body-enum-finish", f.key, "finish_with", len(fw) == 1, "%d finish_with calls" % len(fw))
         for blk, t in fw:
             ctx.requires("C02.P.body-enum-finish", f, blk, "finish_with", [r"discr\(a1\)=Enum"])
-        cl = ctx.closures_of(f)
-        handles = [c.key for c in cl if ctx.find_calls(c, r"Accumulator::handle") and ctx.find_calls(c, r"FromVariant>::from_variant$")]
-        ctx.ob("C02.P.body-enum-handle", f.key, "handle(from_variant(v)) per variant", len(handles) == 1, "closures handling variants: %s" % handles)
+        hs = [h for h in ctx.per_element(f, r"Accumulator::handle$") if re.search(r"FromVariant(>)?::from_variant\(", ctx.expr(h["owner"], h["t"]["args"][1]))]
+        ok = len(hs) == 1 and hs[0]["form"] in ("adapter", "loop") and "(a1 as Enum).0.variants" in hs[0]["source"]
+        ctx.ob("C02.P.body-enum-handle", f.key, "handle(from_variant(v)) per variant", ok, "per-variant handles: %s" % [(h["form"], h["source"][:100]) for h in hs])
     f = ctx.fn("darling_core::ast::data::Fields::<F>::try_from")
     if f:
         fin = ctx.find_calls(f, r"Accumulator::finish$")
